@@ -180,6 +180,24 @@ Definition ends_in_tag_name (s : bytes) : bool :=
 Definition finding_D43 (trees : list (bytes * tree)) : bool :=
   existsb (fun nt => existsb ends_in_tag_name (flat_map (texts_of_node 64) (snd nt))) trees.
 
+(* ---- D44: the end tag of a special element written INSIDE that element's start tag (a missing
+   closing bracket):  <script x=[dq]y[dq]</script>  .  The engine looks for the special end tag in every
+   delimiter-less state, not only in the element body, and returns to the text context; for the
+   tokenizer the end tag opener is an attribute name, the bracket ends the START tag and the element
+   body begins.  Classifier: the tokenizer finds, in the template text, a start tag of a special
+   element with an attribute whose name contains a less-than sign (the solidus that follows ends
+   that attribute name). *)
+
+Definition special_names : list bytes := [B "script"; B "style"; B "textarea"; B "title"].
+
+Definition finding_D44 (template_text : bytes) : bool :=
+  existsb (fun k => match k with
+                    | StartTag n attrs _ =>
+                        mem_bytes n special_names && existsb (fun av : bytes * bytes => mem_N 60 (fst av)) attrs
+                    | _ => false
+                    end)
+          (r_tokens (html_tokenize SData template_text)).
+
 (* ---- D1: a defined template that is the target of at least two template calls and whose body
    changes the context (a context-opening or context-closing helper): the engine memoises the
    callee's INPUT context as its output context, so the second call site continues in the wrong
